@@ -15,7 +15,7 @@ RULE = ('cases: seeded generators for (a) subsample on ordered observation grids
         '(kind, structural signature).')
 ASSUMPTIONS = ['report_times and times are ordered (documented domain)', 'PGF evaluation points lie in (0,1]',
                'estimate_R0 is only judged on graphs with at least one edge']
-REQUIRED = ['subsample_reports_checked', 'time_shift_checked', 'pgf_points_checked', 'pnk_rows_checked', 'R0_checked',
+REQUIRED = ['multigraph_inputs', 'subsample_reports_checked', 'time_shift_checked', 'pgf_points_checked', 'pnk_rows_checked', 'R0_checked',
             'subsample_rejections_checked']
 BUDGET = {'quick': 120, 'thorough': 900}
 
@@ -126,7 +126,18 @@ def _graph_case(case, res):
     r = random.Random(case['seed'])
     desc = gen.random_graph(r, 1, 30)
     desc['labels'] = r.choice(gen.LABEL_SCHEMES)
+    multi = r.random() < 0.25
+    if multi and desc['n'] >= 2:
+        # degree-based helpers are routinely fed the raw output of nx.configuration_model: a MultiGraph with parallel edges / self-loops,
+        # where the degree counts edge ends
+        degs = [r.choice([1, 2, 2, 3, 4]) for _ in range(desc['n'])]
+        if sum(degs) % 2:
+            degs[0] += 1
+        mg = nx.configuration_model(degs, seed=r.randrange(10 ** 9))
+        desc = {'n': desc['n'], 'edges': sorted([sorted(e) for e in mg.edges()]), 'labels': desc['labels'], 'multi': True}
     G, lab = gen.build_graph(desc)
+    if multi:
+        bump(res, 'multigraph_inputs')
     N = G.number_of_nodes()
     degs = [d for _, d in G.degree()]
     # --- get_Pk
@@ -166,8 +177,10 @@ def _graph_case(case, res):
             viol(res, 'PGF|moments_at_1', {'graph': desc, 'got': g, 'expected': [1, float(k1), float(k2)]})
     except Exception as e:
         viol(res, 'PGF|exception:%s' % type(e).__name__, {'graph': desc, 'err': repr(e)})
-    # --- get_Pnk
+    # --- get_Pnk (simple graphs only: on a MultiGraph "neighbours of a degree-k node" is not what the function documents)
     try:
+        if G.is_multigraph():
+            raise StopIteration
         Pnk = EoN.get_Pnk(G)
         cnt = {}
         for u in G:
@@ -187,6 +200,8 @@ def _graph_case(case, res):
             if any(abs(row.get(b, 0) - c / tot) > 1e-9 for b, c in cnt[a].items()) or any(v > 1e-12 and b not in cnt[a] for b, v in row.items()):
                 viol(res, 'get_Pnk|row_values', {'graph': desc, 'k': a, 'got': dict(row), 'expected': {b: c / tot for b, c in cnt[a].items()}})
                 break
+    except StopIteration:
+        pass
     except Exception as e:
         viol(res, 'get_Pnk|exception:%s' % type(e).__name__, {'graph': desc, 'err': repr(e)})
     # --- estimate_R0
